@@ -70,9 +70,28 @@ def run_spec(spec, timeout=1800, jobs=16):
     return obs, cmd
 
 
-def _scratch_copy(dst):
-    """copy of the whole workspace without build output (playback appends a test module to lib.rs)"""
-    shutil.copytree(REPO, dst, ignore=shutil.ignore_patterns("target", ".git"))
+HARNESS_FILES = {
+    "ir::analysis::derive::verif_kani": "derive_tables.rs",
+    "ir::function::verif_kani": "function_abi.rs",
+    "verif_kani::lattice": "lattice.rs",
+}
+
+
+def _scratch_copy(dst, harness):
+    """scratch copy of the workspace (no build output) + of the harness modules;
+    the hook lines of the COPY are pointed at the copied harness modules and the
+    playback test is appended to the module that owns the harness (a test at
+    the crate root could not see the private modules)."""
+    shutil.copytree(REPO, os.path.join(dst, "repo"), ignore=shutil.ignore_patterns("target", ".git"))
+    shutil.copytree(os.path.join(ROOT, "kani_incrate"), os.path.join(dst, "kani_incrate"))
+    for rel in ("bindgen/ir/analysis/derive.rs", "bindgen/ir/function.rs", "bindgen/lib.rs"):
+        p = os.path.join(dst, "repo", rel)
+        t = open(p).read().replace('"/verif/kani_incrate/', '"%s/kani_incrate/' % dst)
+        open(p, "w").write(t)
+    rp = os.path.join(dst, "kani_incrate", "root.rs")
+    open(rp, "w").write(open(rp).read().replace('"/verif/kani_incrate/', '"%s/kani_incrate/' % dst))
+    mod = harness.rsplit("::", 1)[0]
+    return os.path.join(dst, "kani_incrate", HARNESS_FILES[mod]), "super", os.path.join(dst, "repo", "bindgen")
 
 
 def replay(prop):
